@@ -90,6 +90,7 @@ type Cmd struct {
 }
 
 type Obligation struct {
+	Unchecked bool // not part of the running check (filtered out by property tag / safety switch): never assumed by later queries
 	Name   string   // stable name: func#kind:detail
 	Kind   string   // nil, idx, slice, typeassert, panic, ensures, inv-init, inv-step, pre, assert, div0, mapwrite
 	Tags   []string // property tags
